@@ -222,13 +222,22 @@ def chimera(rng, nchains=None, allow_blank=True, hetero=True, max_atoms=900):
         prot = [x for x in res if x.key[0] == "ATOM  "]
         het = [x for x in res if x.key[0] == "HETATM"]
         recs_k = []
+        # a cut-out may span several source chains: keep residue identities unique inside
+        # the new chain by offsetting the numbers of every further source chain
+        src_chains = []
         for x in prot:
+            if x.key[1] not in src_chains:
+                src_chains.append(x.key[1])
+        for x in prot:
+            off = 1000 * src_chains.index(x.key[1])
             for a in x.atoms:
                 a2 = a.copy()
                 a2.chain = cid
+                a2.resnum = a.resnum + off
                 recs_k.append(a2)
         if prot and rng.random() < 0.4:
-            oxt = add_oxt([a for a in recs_k if (a.resnum, a.icode) == (prot[-1].atoms[0].resnum, prot[-1].atoms[0].icode)])
+            lastres = (recs_k[-1].resnum, recs_k[-1].icode)
+            oxt = add_oxt([a for a in recs_k if (a.resnum, a.icode) == lastres])
             if oxt is not None:
                 oxt.chain = cid
                 # sometimes not the last atom of the residue
@@ -251,3 +260,56 @@ def chimera(rng, nchains=None, allow_blank=True, hetero=True, max_atoms=900):
                 out.append(a2)
             desc["hetero"].append((x.key[4].strip(), hc))
     return out, desc
+
+
+def with_hydrogens(recs, hydrogens, moved=None):
+    """Insert hydrogen records (obs 'hydrogens' entries: name, xyz, parents[0] = akey of the
+    heavy atom) after the last atom of the parent's residue. `moved` optionally maps the
+    (x,y,z) floats to lattice integers (used when hydrogens are mapped between frames).
+    Returns (records, n_inserted, n_orphans)."""
+    by_parent = {}
+    for h in hydrogens:
+        if not h["parents"]:
+            continue
+        by_parent.setdefault(tuple(h["parents"][0]), []).append(h)
+    out = []
+    n = 0
+    # position of the last atom of every residue
+    last_of = {}
+    for i, r in enumerate(recs):
+        if r.raw is None:
+            last_of[(r.tag, r.chain, r.resnum, r.icode, r.resn, r.alt)] = i
+    pending = {}
+    for i, r in enumerate(recs):
+        out.append(r)
+        if r.raw is not None:
+            continue
+        key = (r.tag, r.chain, r.resnum, r.icode, r.resn, r.alt)
+        for h in by_parent.pop(r.akey(), []):
+            xyz = moved(h["xyz"]) if moved else tuple(int(round(v * 1000)) for v in h["xyz"])
+            nm = h["name"]
+            hr = pdbio.new_atom(r.tag, "    0", pdbio.name4(nm, "H") if len(nm) < 4 else nm[:4], r.resn, r.chain,
+                                r.resnum, xyz[0], xyz[1], xyz[2], alt=r.alt, icode=r.icode,
+                                tail="  1.00  0.00           H")
+            pending.setdefault(key, []).append(hr)
+            n += 1
+        if last_of[key] == i and key in pending:
+            out.extend(pending.pop(key))
+    return out, n, sum(len(v) for v in by_parent.values())
+
+
+def identities_unique(recs):
+    """True if no two separate residues (runs of consecutive atom lines) share tag-less
+    identity (chain, number, insertion code)."""
+    seen = set()
+    last = None
+    for r in recs:
+        if r.raw is not None:
+            continue
+        k = (r.chain, r.resnum, r.icode)
+        if k != last:
+            if k in seen:
+                return False
+            seen.add(k)
+            last = k
+    return True
